@@ -12,6 +12,7 @@
 -/
 import YtkProofs.Clone
 import YtkModel.Generated.CloneTable
+import YtkProofs.FuncsLemmas
 import YtkModel.Generated.OpOrder
 import YtkProofs.GapPipeline
 import YtkProofs.OpStrings
@@ -359,5 +360,26 @@ theorem nonvacuous_string_dom :
 
 /-- the repair `],]` → `]]` of Coordinates.String() runs over the whole text: a path that contains `],]` is rewritten -/
 theorem coordinates_string_rewrites_path : coordinatesS [("l", "x],]y")] = "[[layer=l,path=x]]y]]\n" := by decide
+
+end Ytk.C15
+
+/-! ## Translated function (YtkModel/Generated/Funcs.lean, regenerated from the Go source on every run by
+    extract/translate.go): `safeCopyIntSlice`, what the clone-table action `copySlice` stands for.  The
+    clone model carries the field value over unchanged (`cloneFields`: `.copySlice => v`); the translation
+    (`make([]int, len(*in))`, `copy(r, *in)`, `&r`) yields the same VALUE for every input — nil stays nil — and
+    never panics.  (That the copy is a FRESH slice is a pointer-level fact outside the value model.) -/
+namespace Ytk.C15
+open Ytk.Generated
+
+theorem safeCopyIntSlice_generated_eq_model (p : Option (List Int)) : Funcs.safeCopyIntSlice p = .ok p := by
+  cases p with
+  | none => simp [Funcs.safeCopyIntSlice]
+  | some xs =>
+    have h : (0 : Int) ≤ Go.lenL xs := by simp [Go.lenL]
+    simp [Funcs.safeCopyIntSlice, Go.deref, Go.makeL, h, Go.copyL, Go.lenL]
+
+theorem nonvacuous_safeCopyIntSlice :
+    Funcs.safeCopyIntSlice (some [3, 1, 2]) = .ok (some [3, 1, 2]) ∧ Funcs.safeCopyIntSlice none = .ok none := by
+  decide
 
 end Ytk.C15
